@@ -9,6 +9,7 @@ import (
 	"fmt"
 	"math"
 	"net/http/httptest"
+	"reflect"
 	"runtime"
 	"strings"
 	"time"
@@ -356,6 +357,118 @@ func crossProducts() []struct{ q, vars string } {
 	add(`subscription{...F} fragment F on Subscription{sub}`, `{}`)
 	add(`subscription{__typename}`, `{}`)
 	add(`mutation{__typename}`, `{}`)
+	return out
+}
+
+// an explicit null — a null literal, a variable given null, a variable whose default is null, and
+// (for comparison) the variable left out — for EVERY nullable argument of every field of the
+// hostile schema and of the introspection fields: a valid document in which the argument's default
+// is NOT applied, so the resolver finds nil in its arguments map
+func nullArgProducts() []struct{ q, vars string } {
+	var out []struct{ q, vars string }
+	add := func(q, v string) { out = append(out, struct{ q, vars string }{q, v}) }
+	type na struct{ path, field, arg, ty, rest, sub string }
+	var sites []na
+	for _, parent := range []string{"", "o", "mutation"} {
+		for _, a := range []na{
+			{field: "arg", arg: "x", ty: "Int"}, {field: "arg", arg: "y", ty: "Int", rest: "x:1,"}, {field: "oa", arg: "x", ty: "Int", sub: "{i}"},
+			{field: "def", arg: "x", ty: "Int"}, {field: "def", arg: "b", ty: "Boolean"}, // b: Boolean! = true: an explicit null is refused
+			{field: "inp", arg: "in", ty: "In"}, {field: "inp", arg: "inr", ty: "InReq"}, {field: "inp", arg: "l", ty: "[[Int]]"},
+			{field: "inp", arg: "e", ty: "Color"}, {field: "inp", arg: "f", ty: "Float"}, {field: "inp", arg: "s", ty: "String"},
+			{field: "inp", arg: "id", ty: "ID"}, {field: "inp", arg: "dt", ty: "DateTime"}, {field: "inp", arg: "long", ty: "LongInt"},
+			{field: "inp", arg: "bnn", ty: "Boolean"}, {field: "req", arg: "r", ty: "Int"},
+		} {
+			a.path = parent
+			if parent == "mutation" {
+				if a.field != "arg" || a.arg != "x" {
+					continue
+				}
+				a.field = "m"
+			}
+			sites = append(sites, a)
+		}
+	}
+	for _, a := range sites {
+		wrap := func(head, sel string) string {
+			switch a.path {
+			case "":
+				return head + "{" + sel + "}"
+			case "mutation":
+				return "mutation" + strings.TrimPrefix(head, "query") + "{" + sel + "}"
+			}
+			return head + "{" + a.path + "{" + sel + "}}"
+		}
+		add(wrap("", a.field+"("+a.rest+a.arg+":null)"+a.sub), `{}`)
+		h := "query($v:" + a.ty + ")"
+		add(wrap(h, a.field+"("+a.rest+a.arg+":$v)"+a.sub), `{"v":null}`)
+		add(wrap(h, a.field+"("+a.rest+a.arg+":$v)"+a.sub), `{}`)
+		add(wrap("query($v:"+a.ty+"=null)", a.field+"("+a.rest+a.arg+":$v)"+a.sub), `{}`)
+	}
+	// nested nulls inside input objects and lists
+	for _, lit := range []string{"in:{a:null}", "in:{c:null}", "in:{c:{l:null}}", "in:{l:[null]}", "in:{b:null}", "in:{e:null}", "inr:{r:null}", "inr:{r:1,o:null}", "l:[null]", "l:[[null]]", "l:[null,[1]]"} {
+		add("{inp("+lit+")}", `{}`)
+	}
+	// the introspection fields: the only ones with arguments are __type(name: String!),
+	// __Type.fields(includeDeprecated: Boolean = false) and __Type.enumValues(includeDeprecated: Boolean = false)
+	for _, f := range []string{"fields", "enumValues"} {
+		for _, tn := range []string{"Query", "Obj", "Iface", "Color", "Uni", "Int", "In"} {
+			add(`{__type(name:"`+tn+`"){`+f+`(includeDeprecated:null){name}}}`, `{}`)
+		}
+		add(`query($d:Boolean){__type(name:"Obj"){`+f+`(includeDeprecated:$d){name}} t:__type(name:"Color"){`+f+`(includeDeprecated:$d){name}}}`, `{"d":null}`)
+		add(`query($d:Boolean){__type(name:"Obj"){`+f+`(includeDeprecated:$d){name}} t:__type(name:"Color"){`+f+`(includeDeprecated:$d){name}}}`, `{}`)
+		add(`query($d:Boolean=null){__type(name:"Obj"){`+f+`(includeDeprecated:$d){name}} t:__type(name:"Color"){`+f+`(includeDeprecated:$d){name}}}`, `{}`)
+		add(`query($d:Boolean=true){__type(name:"Obj"){`+f+`(includeDeprecated:$d){name}} t:__type(name:"Color"){`+f+`(includeDeprecated:$d){name}}}`, `{"d":null}`)
+		add(`{__schema{types{`+f+`(includeDeprecated:null){name}} queryType{`+f+`(includeDeprecated:null){name type{`+f+`(includeDeprecated:null){name}}}}}}`, `{}`)
+		add(`{__type(name:"Obj"){`+f+`(includeDeprecated:true){name} x:`+f+`(includeDeprecated:false){name}}}`, `{}`)
+	}
+	add(`{__type(name:null){name}}`, `{}`)
+	add(`query($n:String){__type(name:$n){name}}`, `{"n":null}`)
+	add(`query($n:String!){__type(name:$n){name}}`, `{"n":null}`)
+	add(`query($n:String="Obj"){__type(name:$n){name}}`, `{"n":null}`)
+	add(`{i @custom(n:null)}`, `{}`)
+	add(`query($n:Int){i @custom(n:$n)}`, `{"n":null}`)
+	add(`query($n:Int=null){i @custom(n:$n)}`, `{}`)
+	add(`query($b:Boolean){i @skip(if:$b)}`, `{"b":null}`)
+	return out
+}
+
+// the same through API.ServeGraphQL, against apifu's own fields: connections (first / last / after /
+// before, atOrAfterTime / beforeTime are all nullable), node(id: ID!), nodes(ids: [ID!]!)
+func serveNullProducts() []struct{ q, vars string } {
+	var out []struct{ q, vars string }
+	add := func(q, v string) { out = append(out, struct{ q, vars string }{q, v}) }
+	sel := "{edges{cursor node} pageInfo{hasNextPage hasPreviousPage startCursor endCursor}}"
+	for _, c := range []string{"conn", "tconn"} {
+		for _, args := range []string{"first:null", "last:null", "first:null,last:null", "first:2,last:null", "first:null,last:2", "first:2,after:null", "last:2,before:null",
+			"first:2,after:null,before:null", "first:null,after:null", "after:null", "before:null", "first:2", "last:2"} {
+			add("{"+c+"("+args+")"+sel+"}", `{}`)
+		}
+		add("query($n:Int,$c:String){"+c+"(first:$n,after:$c)"+sel+"}", `{"n":null,"c":null}`)
+		add("query($n:Int,$c:String){"+c+"(first:$n,after:$c)"+sel+"}", `{"n":2,"c":null}`)
+		add("query($n:Int,$c:String){"+c+"(last:$n,before:$c)"+sel+"}", `{"n":null}`)
+		add("query($n:Int=null,$c:String=null){"+c+"(last:2,first:$n,before:$c)"+sel+"}", `{}`)
+		add("query($n:Int){"+c+"(first:$n){totalCount}}", `{"n":null}`)
+	}
+	for _, args := range []string{"first:2,atOrAfterTime:null", "first:2,beforeTime:null", "last:2,atOrAfterTime:null,beforeTime:null", "atOrAfterTime:null"} {
+		add("{tconn("+args+")"+sel+"}", `{}`)
+	}
+	add("query($t:DateTime){tconn(first:2,atOrAfterTime:$t,beforeTime:$t)"+sel+"}", `{"t":null}`)
+	add(`{node(id:null){id}}`, `{}`)
+	add(`query($i:ID){node(id:$i){id}}`, `{"i":null}`)
+	add(`query($i:ID!){node(id:$i){id}}`, `{"i":null}`)
+	add(`{node(id:"x"){id}}`, `{}`)
+	add(`{nodes(ids:null){id}}`, `{}`)
+	add(`{nodes(ids:[null]){id}}`, `{}`)
+	add(`{nodes(ids:[]){id}}`, `{}`)
+	add(`query($i:[ID!]){nodes(ids:$i){id}}`, `{"i":null}`)
+	add(`query($i:[ID!]!){nodes(ids:$i){id}}`, `{"i":[null]}`)
+	add(`{arg(x:null,y:null)}`, `{}`)
+	add(`{arg(b:null)}`, `{}`)
+	add(`query($x:Int){arg(x:$x)}`, `{"x":null}`)
+	for _, f := range []string{"fields", "enumValues"} {
+		add(`{__type(name:"Query"){`+f+`(includeDeprecated:null){name}}}`, `{}`)
+		add(`query($d:Boolean){__schema{types{`+f+`(includeDeprecated:$d){name}}}}`, `{"d":null}`)
+	}
 	return out
 }
 
@@ -726,6 +839,28 @@ func runCase(api string, q, vars, op string, world, weirdErr int) outcome {
 			cfg.AddQueryField("arg", &graphql.FieldDefinition{Type: graphql.IntType, Arguments: map[string]*graphql.InputValueDefinition{
 				"x": {Type: graphql.IntType}, "y": {Type: graphql.IntType}, "b": {Type: graphql.NewNonNullType(graphql.BooleanType), DefaultValue: true}},
 				Resolve: func(ctx graphql.FieldContext) (interface{}, error) { return 1, nil }})
+			intEdges := map[string]*graphql.FieldDefinition{"node": {Type: graphql.IntType, Resolve: func(ctx graphql.FieldContext) (interface{}, error) { return ctx.Object, nil }}}
+			cfg.AddQueryField("conn", apifu.Connection(&apifu.ConnectionConfig{
+				NamePrefix: "Conn", Direction: apifu.ConnectionDirectionBidirectional,
+				ResolveAllEdges: func(graphql.FieldContext) (interface{}, func(a, b interface{}) bool, error) {
+					return []int{1, 2, 3, 4, 5}, func(a, b interface{}) bool { return a.(int) < b.(int) }, nil
+				},
+				CursorType: reflect.TypeOf(0),
+				EdgeCursor: func(e interface{}) interface{} { return e.(int) },
+				EdgeFields: intEdges,
+			}))
+			cfg.AddQueryField("tconn", apifu.TimeBasedConnection(&apifu.TimeBasedConnectionConfig{
+				NamePrefix: "TConn",
+				EdgeCursor: func(e interface{}) apifu.TimeBasedCursor {
+					return apifu.NewTimeBasedCursor(time.Unix(int64(e.(int)), 0), fmt.Sprint(e))
+				},
+				EdgeFields: intEdges,
+				EdgeGetter: func(ctx graphql.FieldContext, minTime, maxTime time.Time, limit int) (interface{}, error) {
+					return []int{1, 2, 3}, nil
+				},
+				ResolveTotalCount: func(graphql.FieldContext) (interface{}, error) { return 3, nil },
+			}))
+			cfg.ResolveNodesByGlobalIds = func(ctx context.Context, ids []string) ([]interface{}, error) { return nil, nil }
 			a, err := apifu.NewAPI(cfg)
 			if err != nil {
 				return outcome{class: "errors", detail: "schema"}
@@ -985,6 +1120,15 @@ func main() {
 			c := c
 			h.Case(func(*rng.R) sexp.Node { return emit("cross", "execute", c.q, c.vars, "", 0, 0) })
 			h.Case(func(*rng.R) sexp.Node { return emit("cross", "validate", c.q, c.vars, "", 0, 0) })
+		}
+		// 3b. explicit nulls for nullable arguments
+		for _, c := range nullArgProducts() {
+			c := c
+			h.Case(func(*rng.R) sexp.Node { return emit("null-argument", "execute", c.q, c.vars, "", 0, 0) })
+		}
+		for _, c := range serveNullProducts() {
+			c := c
+			h.Case(func(*rng.R) sexp.Node { return emit("null-argument-serve", "serve", c.q, c.vars, "", 0, 0) })
 		}
 		for _, c := range subscriptionProducts() {
 			c := c
